@@ -1506,12 +1506,18 @@ def specials(rng):
     yield "num:Trailer.ID=[()]", render(cdoc, "table", None, objects={**eobjs, top: enc}, trailer_extra={"Encrypt": Ref(top), "ID": [b""]})
     # filter parameters beyond LZWFlateParams on a valid image
     img = bytes(12)
-    for parms, tag in (({"K": -1, "Columns": 0}, "fax-columns0"), ({"K": 0, "Columns": 2 ** 32 - 1}, "fax-columnsmax"), ({"K": -1, "Columns": 8, "Rows": 2 ** 32 - 1}, "fax-rowsmax"),
-                       ({"K": 2 ** 31 - 1, "Columns": 8}, "fax-kmax"), ({"K": -1, "Columns": 1}, "fax-columns1")):
-        for width in (0, 1, 8, 2 ** 32 - 1):
+    eofb = b"\x00\x10\x01"          # the end-of-facsimile-block code alone: every declared row is padded white by the decoder
+    for parms, tag, data in (({"K": -1, "Columns": 0}, "fax-columns0", img), ({"K": 0, "Columns": 2 ** 32 - 1}, "fax-columnsmax", img),
+                             ({"K": -1, "Columns": 8, "Rows": 2 ** 32 - 1}, "fax-rowsmax", img), ({"K": 2 ** 31 - 1, "Columns": 8}, "fax-kmax", img),
+                             ({"K": -1, "Columns": 1}, "fax-columns1", img), ({"K": 0, "Columns": 8}, "fax-k0", img), ({"K": 4, "Columns": 8, "Rows": 1}, "fax-k4", eofb),
+                             ({"K": -1, "Columns": 65535}, "fax-columns65535", img), ({"K": -1, "Columns": 65536}, "fax-columns65536", img),
+                             ({"K": -1, "Columns": 65544}, "fax-columns65544", eofb), ({"K": -1, "Columns": 8, "Rows": 65536}, "fax-rows65536", eofb),
+                             ({"K": -1, "Columns": 8, "Rows": 65535}, "fax-rows65535", eofb), ({"K": -1, "Columns": 8, "Rows": 3}, "fax-eofb-padded", eofb),
+                             ({"K": -1, "Columns": 8, "Rows": 0}, "fax-eofb-norows", eofb), ({"K": -1, "Columns": 65535, "Rows": 65535}, "fax-padding", eofb)):
+        for width in ((0, 1, 8, 2 ** 32 - 1) if tag != "fax-padding" else (8,)):
             d = {"Type": N("XObject"), "Subtype": N("Image"), "Width": parms["Columns"] if width == 8 else width, "Height": 1, "BitsPerComponent": 1, "ImageMask": True,
                  "Filter": N("CCITTFaxDecode"), "DecodeParms": parms}
-            yield "num:CCITTFaxDecodeParams:" + tag, _r(_mini({4: Stream(d, img)}, res={"XObject": {"I": Ref(4)}}))
+            yield "num:CCITTFaxDecodeParams:" + tag, _r(_mini({4: Stream(d, data)}, res={"XObject": {"I": Ref(4)}}))
     for filt in ("DCTDecode", "JPXDecode", "JBIG2Decode", "Crypt", "LZWDecode", "FlateDecode", "RunLengthDecode", "ASCII85Decode", "ASCIIHexDecode"):
         for data in (b"", b"\x00", b"\xff\xd8\xff", b"\x80", b"\x7f", b"\xfe", b"~>", b">", b"z~", b"zzzzz", b"\xff" * 64, bytes(range(256))):
             d = {"Type": N("XObject"), "Subtype": N("Image"), "Width": 1, "Height": 1, "BitsPerComponent": 8, "ColorSpace": N("DeviceGray"), "Filter": N(filt)}
